@@ -86,6 +86,8 @@ type Knobs struct {
 	WDecoSandwich   int  // C12: weight of the compound step "decorate above, resolve from below, decorate in between, resolve again"
 	PGroupOptMulti  int  // Group option (and As) on a constructor with several positional results
 	PVisAfter       int  // an Invoke is followed by Visualize(VisualizeError(its error))
+	PDeepWrap       int  // a parameter / result object is wrapped in 2-4 further objects
+	PEmptyTag       int  // object fields carry explicit empty name:"" / group:"" tags
 	PNoResult       int  // C15: constructors without results vs. with empty result objects
 	PErr2           int  // a second error result (both non-nil when the function fails)
 	PReenterDeco    int  // C02: probability that a decorator body calls Invoke (for its own key or others)
@@ -110,7 +112,7 @@ func DefaultKnobs() Knobs {
 		Groups: []string{"g", "h"},
 		WScope: 3, WProvide: 10, WDecorate: 3, WInvoke: 7, WVisualize: 0, WString: 0,
 		PAvail: 94, PFresh: 93, POpt: 15, PNamed: 20, PGroupRes: 20, PGroupParam: 20, PSoft: 20, PFlatten: 30,
-		PAs: 15, PAsObj: 8, PGroupOptMulti: 4, PExport: 15, PObjParam: 35, PObjResult: 35, PNest: 30, PErr: 25, PVariadic: 5,
+		PAs: 15, PAsObj: 8, PGroupOptMulti: 4, PDeepWrap: 2, PEmptyTag: 3, PExport: 15, PObjParam: 35, PObjResult: 35, PNest: 30, PErr: 25, PVariadic: 5,
 		PFault: 0, PPanic: 30, PDecoSelf: 75, PDecoGroup: 25, PDecoMulti: 20, PDecoExtra: 30,
 		PInvokeAll: 96, PInfo: 0, PCallback: 0, PDefer: 15, PRecover: 30, PHole: 40, PLate: 70, PCycleKeep: 5,
 		NoFaults: true, AvoidDecoCycle: true, PreferAvailable: true,
@@ -494,6 +496,18 @@ func (g *gen) nestParams(fields []Param, lbl string, depth int) Param {
 	if g.pct(g.k.PEmbedPos, lbl+"embed") {
 		po.EmbedAt = 1 + g.pick(len(fields)+1, lbl+"embedat")
 	}
+	if g.pct(g.k.PEmptyTag, lbl+"et") {
+		for i := range po.Obj {
+			if !po.Obj[i].isObj() && po.Obj[i].Tag == "" && po.Obj[i].Decl == "" && g.pct(60, fmt.Sprintf("%set%d", lbl, i)) {
+				po.Obj[i].ET = true
+			}
+		}
+	}
+	if depth == 0 && g.pct(g.k.PDeepWrap, lbl+"deep") {
+		for d, n := 0, 2+g.pick(3, lbl+"deepn"); d < n; d++ {
+			po = Param{IsObj: true, Obj: []Param{po}}
+		}
+	}
 	return po
 }
 
@@ -549,6 +563,19 @@ func (g *gen) nestResults(fields []Result, lbl string, depth int) Result {
 	if g.pct(g.k.PEmbedPos, lbl+"embed") {
 		ro.EmbedAt = 1 + g.pick(len(fields)+1, lbl+"embedat")
 	}
+	if g.pct(g.k.PEmptyTag, lbl+"et") {
+		for i := range ro.Obj {
+			if !ro.Obj[i].isObj() && ro.Obj[i].Tag == "" && g.pct(60, fmt.Sprintf("%set%d", lbl, i)) {
+				ro.Obj[i].ET = true // explicit name:"" / group:"" tags: the same as none
+			}
+		}
+	}
+	if depth == 0 && g.pct(g.k.PDeepWrap, lbl+"deep") {
+		// the same fields several result objects further down
+		for d, n := 0, 2+g.pick(3, lbl+"deepn"); d < n; d++ {
+			ro = Result{IsObj: true, Obj: []Result{ro}}
+		}
+	}
 	return ro
 }
 
@@ -578,7 +605,7 @@ func (g *gen) faults(f *Fn) {
 	}
 	if g.pct(g.k.PFaultKind, "faultkind") {
 		f.EK = g.pick(3, "ek")
-		f.PK = g.pick(6, "pk")
+		f.PK = g.pick(8, "pk")
 	}
 }
 
@@ -1669,7 +1696,7 @@ func GenDeepChain(t *rapid.T, k Knobs, maxLen int) *Case {
 		if i == 0 && (bottom == 1 || bottom == 2) {
 			f.Err = true
 			f.Faults = []int{bottom}
-			f.PK = g.pick(6, "pk")
+			f.PK = g.pick(8, "pk")
 			f.EK = g.pick(3, "ek")
 		} else if g.pct(30, "haserr") {
 			f.Err = true
